@@ -152,12 +152,22 @@ func c09R2(e *Engine) {
 			kind := ""
 			switch s := in.(type) {
 			case *ssa.IndexAddr:
-				if _, isArr := s.X.Type().Underlying().(*types.Pointer); isArr {
+				if pt, isArr := s.X.Type().Underlying().(*types.Pointer); isArr {
+					if arr, ok := pt.Elem().Underlying().(*types.Array); ok {
+						if v, bad := arrayIndexVerdict(arr, s.Index, in); bad {
+							n++
+							record(e.fname(fn)+":array["+describeIndex(s.Index)+"]", e.ipos(in), Fail, v)
+						}
+					}
 					return
 				}
 				x, idx, kind = s.X, s.Index, "index"
 			case *ssa.Index:
-				if _, isArr := s.X.Type().Underlying().(*types.Array); isArr {
+				if arr, isArr := s.X.Type().Underlying().(*types.Array); isArr {
+					if v, bad := arrayIndexVerdict(arr, s.Index, in); bad {
+						n++
+						record(e.fname(fn)+":array["+describeIndex(s.Index)+"]", e.ipos(in), Fail, v)
+					}
 					return
 				}
 				x, idx, kind = s.X, s.Index, "index"
@@ -1195,4 +1205,47 @@ func (e *Engine) nilTolerantConsumers(fn *ssa.Function) bool {
 		})
 	}
 	return ok && reads > 0
+}
+
+// arrayIndexVerdict: indexing a fixed-size array with a non-constant index is safe only when the index type cannot
+// exceed the array length (e.g. a byte into [256]T) or a dominating comparison bounds it.
+func arrayIndexVerdict(arr *types.Array, idx ssa.Value, in ssa.Instruction) (string, bool) {
+	if _, isK := constInt(idx); isK {
+		return "", false // constant indices into arrays are checked by the compiler
+	}
+	base := idx
+	if cv, ok := base.(*ssa.Convert); ok {
+		base = cv.X
+	}
+	if b, ok := base.Type().Underlying().(*types.Basic); ok {
+		var max int64 = -1
+		switch b.Kind() {
+		case types.Uint8:
+			max = 255
+		case types.Uint16:
+			max = 65535
+		}
+		if max >= 0 && arr.Len() > max {
+			return "", false
+		}
+	}
+	for _, cd := range condsAt(in.Block()) {
+		cd = normCond(cd)
+		bo, ok := cd.V.(*ssa.BinOp)
+		if !ok {
+			continue
+		}
+		if strip(bo.X) == strip(idx) || strip(bo.X) == strip(base) {
+			if k, isK := constInt(bo.Y); isK {
+				op := bo.Op
+				if !cd.Val {
+					op = negOp(op)
+				}
+				if (op == token.LSS && k <= arr.Len()) || (op == token.LEQ && k < arr.Len()) {
+					return "", false
+				}
+			}
+		}
+	}
+	return fmt.Sprintf("a fixed-size array of length %d is indexed with a value of type %s whose range exceeds it and no dominating comparison bounds it: an index beyond the table panics (index out of range)", arr.Len(), typeName(idx.Type())), true
 }
